@@ -189,14 +189,22 @@ fn run_case_budget(prior: PortSettings, entry: Entry, fault: Fault, fk: usize, b
 /// A setup that failed, then the same port set up again (by `configure_port`, or handed to a constructor) once the cause is
 /// gone — and a setup on ANOTHER port right after a failed one on this thread: the second attempt is judged like a first.
 fn second_attempts(prior: PortSettings, fk: usize, rep: &mut Report) {
+    second_attempts_after(prior, fk, false, rep);
+    // ... and after a set-up during which the port's driver PANICKED (once): the panic is caught, the thread goes on, and
+    // the next set-up — of the same port or of another — does all its work
+    second_attempts_after(prior, fk, true, rep);
+}
+
+fn second_attempts_after(prior: PortSettings, fk: usize, panics: bool, rep: &mut Report) {
     for fault in [Fault::ReadSettings, Fault::Baud, Fault::WriteSettings, Fault::SetTimeout] {
         for second in 0..4usize {
-            let sig = format!("second-attempt|{:?}|{:?}|{}|{}", prior, fault, fk, second);
+            let sig = format!("second-attempt|{:?}|{:?}|{}|{}|{}", prior, fault, fk, second, panics);
             rep.case(Some(fnv(sig.as_bytes())));
             let st = doubles::shared(prior);
             {
                 let mut s = st.borrow_mut();
-                s.fault_budget = usize::MAX;
+                s.fault_budget = if panics { 1 } else { usize::MAX };
+                s.panic_on_fault = panics;
                 match fault {
                     Fault::None => {}
                     Fault::ReadSettings => s.fail_read_settings = Some(FAULT_KINDS[fk]),
@@ -214,6 +222,7 @@ fn second_attempts(prior: PortSettings, fk: usize, rep: &mut Report) {
                 s.fail_baud = None;
                 s.fail_write_settings = None;
                 s.fail_set_timeout = None;
+                s.panic_on_fault = false;
                 s.log.clear();
             }
             // the second attempt: on the same port (three ways), or on a fresh port with the same prior settings
@@ -230,11 +239,20 @@ fn second_attempts(prior: PortSettings, fk: usize, rep: &mut Report) {
                 }
             });
             let s = st2.borrow();
+            // (a panicking first attempt counts as a failed one)
+            let first = match first {
+                Err(_) if panics => Ok(true),
+                Ok(_) if panics => Ok(false),
+                other => other,
+            };
+            if panics {
+                rep.count("second_attempts_after_a_panicking_setup");
+            }
             let what = match (&first, &r) {
                 (Ok(true), Ok(Ok(()))) if s.settings == TARGET && s.timeout.is_some() && (second != 0 || s.timeout == Some(Duration::from_millis(41))) => None,
                 (Ok(true), Ok(Ok(()))) => Some(format!("the second attempt returned Ok but the port is at {:?}, timeout {:?}", s.settings, s.timeout)),
                 (Ok(true), Ok(Err(e))) => Some(format!("the second attempt failed ({}) although the port no longer refuses anything", e)),
-                (Ok(false), _) => Some("the first attempt returned Ok although the port refused".to_string()),
+                (Ok(false), _) => Some("the first attempt returned although the port refused (or its driver panicked)".to_string()),
                 (Err(p), _) | (_, Err(p)) => Some(format!("panic {} at {}", p.msg, short_loc(&p.loc))),
             };
             match what {
@@ -533,6 +551,7 @@ pub fn run(ctx: &Ctx) -> Outcome {
         floor("sub-millisecond, fractional and very long caller timeouts", report.get("unusual_timeouts_applied") == 135 * 10, report.get("unusual_timeouts_applied")),
         floor("ports that already carry a read timeout (equal to / different from the one asked for), every error kind at every fault point", report.get("cases_on_a_port_with_a_timeout_already_set") == (270 * 4 * 4 * FAULT_KINDS.len() * 4) as u64, report.get("cases_on_a_port_with_a_timeout_already_set")),
         floor("one port object configured 70 000 times", report.get("repeated_setups_of_one_port") == 70_000, report.get("repeated_setups_of_one_port")),
+        floor("a setup during which the port's driver panicked once (at each of the four points), then a second attempt on the same thread (same port three ways, another port)", report.get("second_attempts_after_a_panicking_setup") >= 135 * 16 && report.get("second_attempts_ok") >= 135 * 32, format!("{} after a panic, {} second attempts in order", report.get("second_attempts_after_a_panicking_setup"), report.get("second_attempts_ok"))),
         floor("a failed setup followed by a second attempt (same port three ways, another port) once the cause is gone", report.get("second_attempts_ok") >= 135 * 16, report.get("second_attempts_ok")),
         floor("prior rates at the ends of usize and around 2^8 .. 2^63", report.get("extreme_prior_rates") == 64, report.get("extreme_prior_rates")),
         floor("ports that implement SerialPort themselves and rehearse the setup on scratch settings before applying it (all 1080 priors x 1 or 2 rehearsals x 3 entry points)", report.get("careful_port_setups_ok") == 1080 * 6, report.get("careful_port_setups_ok")),
